@@ -12,15 +12,31 @@
 // params: pre = items published and consumed by every consumer BEFORE the scheduler starts (moves
 //               the run next to the vector's block boundary at 128)
 //         rsv = slots reserved before the start (0: the vector grows during the run; slot words
-//               are then unnamed and only the L1 monitor / HBMon judge the run)
+//               then carry arena names only ("mem") and the L1 monitor / HBMon judge the run)
 #include <babylon/concurrent/transient_topic.h>
 
 #include <cstring>
+#include <new>
 #include <string>
 #include <thread>
 #include <vector>
 
 #include "vrun.h"
+
+// Every over-aligned allocation (the vector's blocks and block tables are the only ones) comes from a
+// static arena, so that also blocks allocated DURING a run have trace names ("mem", word offset): the
+// happens-before monitor then sees each slot word as its own location.
+alignas(4096) static char g_arena[8 << 20];
+static size_t g_arena_used = 0;
+void* operator new(std::size_t n, std::align_val_t al) {
+  size_t a = (size_t)al;
+  size_t off = __atomic_fetch_add(&g_arena_used, n + a, __ATOMIC_RELAXED);
+  off = (off + a - 1) / a * a;
+  if (off + n > sizeof(g_arena)) abort();
+  return g_arena + off;
+}
+void operator delete(void*, std::align_val_t) noexcept {}
+void operator delete(void*, std::size_t, std::align_val_t) noexcept {}
 
 namespace {
 
@@ -200,6 +216,7 @@ void scenario_topic(const vrun::Params& p) {
         if (r[(size_t)i].v != 5000 + (int)i) abort();
     }
   }
+  vsched::name_array(g_arena, 4, sizeof(g_arena) / 4, "mem"); // registered first: more specific names win
   vsched::name_loc(&w.topic._next_event_index, sizeof(w.topic._next_event_index), "idx");
   vsched::name_loc(&w.topic._slots._block_table, sizeof(w.topic._slots._block_table), "tab");
   if (rsv > 0) name_blocks(w);
